@@ -247,6 +247,10 @@ def finish(report, ctx, assumptions, explanation, technique):
         'wall_s': round(time.time() - report.t0, 2),
         'violations': len(viols),
     }
+    if getattr(report, 'selftest', None) is not None:
+        ev['coverage']['selftest'] = report.selftest
+        ev['coverage']['selftest_rule'] = ('every kept breaking change for this property (seeded/*, reverted fix: commits) applied to a scratch copy of the current tree; '
+                                           'the rules must report it; result does not affect the verdict on /repo')
     json.dump(ev, open(os.path.join(evdir, prop + '.json'), 'w'), indent=1)
     print('%s: %d obligations, %d discharged, %d known findings, %d violations (%d functions analysed, %.1fs)' % (
         prop, total, ok, len(knowns), len(viols), len(ctx.analysed), time.time() - report.t0))
